@@ -43,12 +43,12 @@ Fixpoint get_path_go (rp : string) (fs : list field) (pp : string) (cur : value)
   | [] => Ok (Some (pp, cur))
   | [f] =>
     match get_field f pp cur with
-    | Err _ _ => Err EMissing (path_of rp (field_str f))
+    | Err _ _ => Err EMissing (path_of pp (field_str f))    (* the full path (fix F69) *)
     | r => r
     end
   | f :: rest =>
     match get_field f pp cur with
-    | Ok None => Err EMissing (path_of rp (field_str f))
+    | Ok None => Err EMissing (path_of pp (field_str f))    (* the path walked so far *)
     | Ok (Some (pp', v)) => get_path_go rp rest pp' v
     | Err r p => Err r p
     | Panic => Panic
